@@ -17,13 +17,13 @@ ENGINE = {'name': 'caddyfile',
          'parsed JSON, loaded with caddy.Validate, decoded into layer4.App and into every module struct and re-encoded; plus a fixed stream of '
          'syntactically valid / semantically invalid values that the adapter must accept; a case is non-trivial when the configuration has at '
          'least one named matcher set and one nested handler (tee/subroute); distinct = distinct Coq terms',
- 'trusted_base': ['caddyfile.Tokenize (Caddy lexer) provides the token stream handed to the model; a change of line number is rendered as NL',
+ 'trusted_base': ['Caddy\'s module loader (getModuleNameInline) and caddyconfig.JSONModuleObject decode through float64: integers above 2^53 are generated in global form only and never at MaxInt64', 'caddyfile.Tokenize (Caddy lexer) provides the token stream handed to the model; a change of line number is rendered as NL',
                   'httpcaddyfile (global options, servers/listener_wrappers) and caddy.Validate / module loader are Caddy\'s',
                   'caddyhttp.PrivateRangesCIDR() is copied into the model as a constant'],
  'modelled': ['layer4/caddyfile.go: ParseCaddyfileNestedRoutes, ParseCaddyfileNestedHandlers, ParseCaddyfileNestedMatcherSet, SetModuleNameInline, '
               'parseLayer4 (several global blocks); Server / ListenerWrapper / subroute / tee / not UnmarshalCaddyfile; block structure of the token '
               'stream (what Next/NextArg/NextBlock/NextSegment walk)',
-              'leaf UnmarshalCaddyfile + JSON encoding modelled: matchers ssh xmpp postgres proxy_protocol socks4 socks5 regexp clock wireguard winbox '
+              'leaf UnmarshalCaddyfile + JSON encoding modelled AND leaf equation proved (parse (print x) = json x): matchers ssh xmpp postgres proxy_protocol socks4 socks5 regexp clock wireguard winbox '
               'remote_ip local_ip dns rdp openvpn; handlers echo proxy_protocol throttle (integral rates) socks5 proxy (upstream incl. tls_* options '
               'except trust pools, health checks, load balancing, six selection policies)',
               'not modelled (oracle only): tls / http / quic matchers, tls handler, decimal throttle rates, tls_trust_pool; Caddy lexer, Dispenser cursor, '
